@@ -40,6 +40,8 @@ def runs(prop, tier):
          ("G(5) with at most 6 edges x PM2 (every assignment of distinct powers of two) and x PM (1..m), k in {%s}" % ks_q, [["--n", 5, "--alpha", a, "--max-m", 6, "--ks", ks_q] for a in ("PM2", "PM")]),
          ("edge orientation reversed / alternating: G(0..4) x A3, G(5) x A2", [["--n", n, "--alpha", "A3", "--ks", ks_q, "--orient", o] for n in range(2, 5) for o in (1, 2)] + [["--n", 5, "--alpha", "A2", "--ks", ks_q, "--orient", 1]]),
          ("edge insertion order reversed / interleaved: G(4) x A3, G(5) x A2", [["--n", 4, "--alpha", "A3", "--ks", ks_q, "--eorder", o] for o in (1, 2)] + [["--n", 5, "--alpha", "A2", "--ks", ks_q, "--eorder", o] for o in (1, 2)]),
+         ("amplified gadgets (parallel composition: 5 copies of the base graph glued at vertices 0 and 1, an edge joining the terminals stays single) over G(4) x {1,1000,2000} in 3 orientations and G(5) with at most 6 edges x {1,1000,2000} in 2 orientations, Horton reference",
+          [["--n", 4, "--alpha", "H3", "--amp", 5, "--ks", "2,3", "--orient", o] for o in (0, 1, 2)] + [["--n", 5, "--alpha", "H3", "--amp", 5, "--ks", "2", "--max-m", 6, "--orient", o] for o in (0, 1)]),
          ("theta graphs with chords (11 vertices, many non-spanner edges competing for one heavy edge): edge #0 = 1000, every other edge over {1,2}, both orientations",
           [["--families", "thetac:3:4", "--alpha", "A2H", "--ks", "2,3", "--wchunks", 32, "--orient", o] for o in (0, 1)]),
          ("fixed menu: 1200 pseudo-random sparse graphs n=8..20 x 3 pseudo-random weightings in 1..9, and x every one-heavy-edge weighting for n <= 12",
@@ -54,6 +56,8 @@ def runs(prop, tier):
             ("G(5) x A2, k in {%s}" % ks_t, [["--n", 5, "--alpha", "A2", "--ks", ks_t]]),
             ("G(5) x A3, k in {%s}" % ks_t, [["--n", 5, "--alpha", "A3", "--ks", ks_t]]),
             ("G(5) with at most 7 edges x PM2 and x PM, k in {%s}" % ks_q, [["--n", 5, "--alpha", a, "--max-m", 7, "--ks", ks_q] for a in ("PM2", "PM")]),
+            ("amplified gadgets over G(5) with at most 8 edges x {1,1000,2000}, 5 copies, 3 orientations, k in {2,3}; over G(5) x {1,100}, 4 copies",
+             [["--n", 5, "--alpha", "H3", "--amp", 5, "--ks", "2,3", "--max-m", 8, "--orient", o] for o in (0, 1, 2)] + [["--n", 5, "--alpha", "H2", "--amp", 4, "--ks", "2,3", "--orient", o] for o in (0, 1)]),
             ("G(5) x D, k in {%s}" % ks_q, [["--n", 5, "--alpha", "D", "--ks", ks_q]]),
             ("families x A2", [["--families", "wheel:5,wheel:6,prism:3,prism:4,Kb:3:3,cube:3,grid:3:3,petersen,grid:2:5", "--alpha", "A2", "--ks", ks_t]]),
             ("G(6) x U, k in {%s}" % ks_t, [["--n", 6, "--alpha", "U", "--ks", ks_t]]),
